@@ -2692,8 +2692,9 @@ class FileSet:
         if f"(?P<{placeholder}>" not in value:
             return value
         else:
-            # The last character is the closing parenthesis:
-            return value[len(f"(?P<{placeholder}>"):-1]
+            # The last character is the closing parenthesis. Keep a (non
+            # capturing) group: the regex might be an alternation.
+            return "(?:" + value[len(f"(?P<{placeholder}>"):-1] + ")"
 
     @expects_file_info()
     def read(self, file_info, **read_args):
